@@ -9,4 +9,13 @@ CLAIMS = {
   'note': 'Trusted: Coq kernel; py2coq (floor/ceil of float quotient treated as exact integer floor/ceil, valid below 2^52); '
           'hand-written table accumulation model (validated by K on real BAMs); pysam/pandas; read filters are C11.'},
 }
+CLAIMS['C03'] = {
+  'technique': 'Coq proof (induction over strings / dict folds, sortedness of the tie rule, lazy=eager state-machine refinement) + correspondence check of the extracted model against the real BarcodeParser',
+  'text': 'For every whitelist file over ACGTN (repeated lines, unequal lengths, N included), every k and every observed string over ACGTN: '
+          'the lookup returns (i,b,d) iff b is the unique nearest whitelisted barcode within k, d its Hamming distance, i its index; exact members '
+          'map to themselves at distance 0; ties are never assigned; a lazily loaded alias answers every query sequence like an eager one; '
+          'hamming_circle is exactly the Hamming sphere. Model = step-by-step transcription of expand/addBarcode/lookup, compared with the real '
+          'class on ~60k lookups (exhaustive query sets for short barcodes, all file formats, shipped whitelists) and on the tables themselves.',
+  'note': 'Modelled not verified: file tokenisation / column-order detection of parse_barcode_file (K only), itertools enumeration order of '
+          'hamming_circle (K pins it as a multiset), dict and sorted as association lists / insertion sort. Assumes the ACGTN alphabet and one file per alias.'}
 NOT_APPLICABLE = {}
